@@ -178,8 +178,11 @@ def run_torch_support_sum(ctx, cfg):
     if any(not close(a, b, 1e-9) for a, b in zip(got, mass)) or not close(sum(mass), 1.0, 1e-12):
         raise HarnessError(f"oracle probabilities disagree with torch.distributions: {ps} {got} {mass}")
     for s_, row in enumerate(dlog):
+        if mass[s_] == 0.0:
+            continue  # log-probability -inf: no derivative to compare
         g, = torch.autograd.grad(lp[s_], theta, retain_graph=True)
-        if any(not close(a, b, 1e-7) for a, b in zip(g.tolist(), row)):
+        skip = {int(i) for i in (ps.get("masked") or [])} if ps.get("par") == "probs" else set()
+        if any(not close(a, b, 1e-7) for j, (a, b) in enumerate(zip(g.tolist(), row)) if j not in skip):
             raise HarnessError(f"oracle d log P / d theta disagrees with autograd: {ps} {g.tolist()} {row}")
     ctx.count("oracle_cross_checks")
 
